@@ -315,7 +315,17 @@ class C19(Prop):
         elif not faulted_early:
             return failed("bad_connect_request", "nothing was written to the proxy; events %s" % names, labels, nontrivial)
         send_failed = fault is not None and fault[0] == "send" and fault[1] == 0
-        recv_faulted = fault is not None and fault[0] == "recv" and fault[1] < max(1, len(simnet.segment(reply_bytes, case["seg"])))
+        # a failing recv counts against the tunnel iff it struck before the whole reply had been handed over (how many
+        # recv calls a reply takes depends on the client's read size, which is not the property's business)
+        recv_faulted = False
+        if fault is not None and fault[0] == "recv":
+            delivered = 0
+            for e in sim.log:
+                if e[0] == "recv":
+                    delivered += len(e[2])
+                elif e[0] == "recv_fail":
+                    recv_faulted = delivered < max(1, len(reply_bytes))
+                    break
         tunnel_up = is200 and not faulted_early and not send_failed and not recv_faulted
         if fault is not None and fault[0] == "send" and fault[1] >= 1:
             tunnel_up = is200    # the fault hits the WebSocket request, after the tunnel is up
